@@ -1,8 +1,225 @@
-//! Implementation runner for the `dynamic` area: add the modes of this area to `dispatch`.
+//! Implementation runner for the `dynamic` area (C18): the shell-agnostic completion engine
+//! `clap_complete::engine::complete`.
+//!
+//! `(dyn (cmd ...) (argv x..) <index>)`
+//!     -> `INVALID` (the command fails clap's own debug assertions)
+//!      | `err` (plain "no completion generated" error)
+//!      | `ok (<value hex> h|v)...` (candidates in the order returned)
+//!      | `PANIC ...` (caught in main.rs)
+//! `(dynaccept (cmd ...) (argv x..) <index>)`
+//!     -> the `dyn` result, then ` ;; (prefix <kind>) (word <kind>) (acc (<value hex> <kind>)...) (tree ...)`
+//!        where `<kind>` is what the REAL parser says about `argv[..index] ++ [candidate]`
+//!        (`ok`, an `ErrorKind` name or `PANIC`), and `(tree ...)` is the reflection dump of the built
+//!        command (names, aliases, hidden flags of every level) for the oracle.
+//! Extension items understood in command specs: `(x-pv (xNAME h|v)...)` on an arg = PossibleValuesParser.
+use crate::hex;
+use crate::modes::parse::{build_cmd_with, kind_name, EnvGuard};
 use crate::sexp::Sx;
+use clap::builder::{PossibleValue, PossibleValuesParser};
+use clap::{Arg, Command};
+use std::ffi::OsString;
+use std::os::unix::ffi::{OsStrExt, OsStringExt};
+use std::panic::{catch_unwind, AssertUnwindSafe};
+
+fn arg_ext(a: Arg, items: &[Sx]) -> Arg {
+    let mut a = a;
+    for it in &items[1..] {
+        if it.head() == "x-pv" {
+            let pvs: Vec<PossibleValue> = it
+                .args()
+                .iter()
+                .map(|p| {
+                    let l = p.list();
+                    let name = String::from_utf8(l[0].bytes()).expect("pv utf8");
+                    PossibleValue::new(name).hide(l.len() > 1 && l[1].sym() == "h")
+                })
+                .collect();
+            a = a.value_parser(PossibleValuesParser::new(pvs));
+        }
+    }
+    a
+}
+
+fn build(spec: &Sx, env: &mut EnvGuard) -> Option<Command> {
+    catch_unwind(AssertUnwindSafe(|| {
+        let c = build_cmd_with(spec.args(), env, &arg_ext, &|c, _| c);
+        let mut probe = c.clone();
+        probe.build();
+        c
+    }))
+    .ok()
+}
+
+fn argv_of(a: &Sx) -> Vec<OsString> {
+    a.args().iter().map(|x| OsString::from_vec(x.bytes())).collect()
+}
+
+type Cands = Vec<(Vec<u8>, bool, Option<String>)>;
+
+fn run_complete(cmd: &Command, argv: &[OsString], index: usize) -> Result<Cands, ()> {
+    let mut c = cmd.clone();
+    match clap_complete::engine::complete(&mut c, argv.to_vec(), index, None) {
+        Ok(v) => Ok(v
+            .iter()
+            .map(|c| (c.get_value().as_bytes().to_vec(), c.is_hide_set(), c.get_id().cloned()))
+            .collect()),
+        Err(_) => Err(()),
+    }
+}
+
+fn show(r: &Result<Cands, ()>) -> String {
+    match r {
+        Err(()) => "err".into(),
+        Ok(v) => {
+            let mut s = String::from("ok");
+            for (val, h, _) in v {
+                s.push_str(&format!(" ({} {})", hex(val), if *h { "h" } else { "v" }));
+            }
+            s
+        }
+    }
+}
+
+fn parse_kind(cmd: &Command, line: Vec<OsString>) -> String {
+    match catch_unwind(AssertUnwindSafe(|| cmd.clone().try_get_matches_from(line))) {
+        Ok(Ok(_)) => "ok".into(),
+        Ok(Err(e)) => kind_name(e.kind()).into(),
+        Err(_) => "PANIC".into(),
+    }
+}
+
+fn dump_tree(c: &Command) -> String {
+    let mut s = format!("(c {} {}", hex(c.get_name().as_bytes()), if c.is_hide_set() { "h" } else { "v" });
+    s.push_str(" (f");
+    for (n, b) in [
+        ("args_conflicts_with_subcommands", c.is_args_conflicts_with_subcommands_set()),
+        ("subcommand_precedence_over_arg", c.is_subcommand_precedence_over_arg_set()),
+        ("allow_external_subcommands", c.is_allow_external_subcommands_set()),
+        ("allow_missing_positional", c.is_allow_missing_positional_set()),
+        ("no_binary_name", c.is_no_binary_name_set()),
+        ("multicall", c.is_multicall_set()),
+        ("flagsub", c.get_short_flag().is_some() || c.get_long_flag().is_some()),
+    ] {
+        if b {
+            s.push(' ');
+            s.push_str(n);
+        }
+    }
+    s.push(')');
+    s.push_str(" (va");
+    for a in c.get_visible_aliases() {
+        s.push_str(&format!(" {}", hex(a.as_bytes())));
+    }
+    s.push_str(") (aa");
+    for a in c.get_all_aliases() {
+        s.push_str(&format!(" {}", hex(a.as_bytes())));
+    }
+    s.push(')');
+    for a in c.get_arguments() {
+        s.push_str(&format!(" (a {} {}", hex(a.get_id().as_str().as_bytes()), if a.is_hide_set() { "h" } else { "v" }));
+        s.push_str(" (l");
+        if let Some(l) = a.get_long() {
+            s.push_str(&format!(" {}", hex(l.as_bytes())));
+        }
+        s.push_str(") (va");
+        for l in a.get_visible_aliases().unwrap_or_default() {
+            s.push_str(&format!(" {}", hex(l.as_bytes())));
+        }
+        s.push_str(") (aa");
+        for l in a.get_all_aliases().unwrap_or_default() {
+            s.push_str(&format!(" {}", hex(l.as_bytes())));
+        }
+        s.push_str(") (s");
+        if let Some(ch) = a.get_short() {
+            s.push_str(&format!(" {}", ch as u32));
+        }
+        s.push_str(") (vsa");
+        for ch in a.get_visible_short_aliases().unwrap_or_default() {
+            s.push_str(&format!(" {}", ch as u32));
+        }
+        s.push_str(") (asa");
+        for ch in a.get_all_short_aliases().unwrap_or_default() {
+            s.push_str(&format!(" {}", ch as u32));
+        }
+        s.push_str(") (f");
+        for (n, b) in [
+            ("hyphen", a.is_allow_hyphen_values_set()),
+            ("negnum", a.is_allow_negative_numbers_set()),
+            ("tva", a.is_trailing_var_arg_set()),
+            ("last", a.is_last_set()),
+            ("reqeq", a.is_require_equals_set()),
+            ("term", a.get_value_terminator().is_some()),
+            ("delim", a.get_value_delimiter().is_some()),
+            ("positional", a.is_positional()),
+            ("append", matches!(a.get_action(), clap::ArgAction::Append)),
+        ] {
+            if b {
+                s.push(' ');
+                s.push_str(n);
+            }
+        }
+        let r = a.get_num_args();
+        s.push_str(&format!(
+            ") (n {} {}) (i {}))",
+            r.map(|r| r.min_values()).unwrap_or(0),
+            r.map(|r| r.max_values()).unwrap_or(0),
+            a.get_index().unwrap_or(0)
+        ));
+    }
+    for sc in c.get_subcommands() {
+        s.push(' ');
+        s.push_str(&dump_tree(sc));
+    }
+    s.push(')');
+    s
+}
+
+fn dyn_mode(a: &[Sx], accept: bool) -> String {
+    if a.len() < 3 || a[0].head() != "cmd" || a[0].args().is_empty() || a[1].head() != "argv" || !matches!(a[2], Sx::Num(_)) {
+        return "badcase".into();
+    }
+    let mut env = EnvGuard(vec![]);
+    let cmd = match build(&a[0], &mut env) {
+        Some(c) => c,
+        None => return "INVALID".into(),
+    };
+    let argv = argv_of(&a[1]);
+    let index = a[2].num() as usize;
+    let res = run_complete(&cmd, &argv, index);
+    let mut out = show(&res);
+    if accept {
+        let cut = index.min(argv.len());
+        let prefix: Vec<OsString> = argv[..cut].to_vec();
+        out.push_str(&format!(" ;; (prefix {})", parse_kind(&cmd, prefix.clone())));
+        if index < argv.len() {
+            let mut l = prefix.clone();
+            l.push(argv[index].clone());
+            out.push_str(&format!(" (word {})", parse_kind(&cmd, l)));
+        } else {
+            out.push_str(" (word none)");
+        }
+        out.push_str(" (acc");
+        if let Ok(v) = &res {
+            for (val, _, id) in v {
+                let mut l = prefix.clone();
+                l.push(OsString::from_vec(val.clone()));
+                let id = id.as_ref().map(|i| hex(i.as_bytes())).unwrap_or_else(|| "none".into());
+                out.push_str(&format!(" ({} {} {})", hex(val), parse_kind(&cmd, l), id));
+            }
+        }
+        out.push(')');
+        let mut built = cmd.clone();
+        built.build();
+        out.push_str(&format!(" (tree {})", dump_tree(&built)));
+    }
+    out
+}
 
 /// Returns `Some(result)` when `head` is a mode of this area.
 pub fn dispatch(head: &str, args: &[Sx]) -> Option<String> {
-    let _ = (head, args);
-    None
+    match head {
+        "dyn" => Some(dyn_mode(args, false)),
+        "dynaccept" => Some(dyn_mode(args, true)),
+        _ => None,
+    }
 }
